@@ -208,7 +208,10 @@ def hist_of(lines):
 def selftest(ctx, hs, monitors):
     """Step 5: a corrupted copy of an accepted history must be rejected."""
     rnd = random.Random(ctx.seed)
-    cands = [hh for hh in hs if any('"outs":[{' in l for l in hh)]
+    # only histories without a credential-disposal record: every emitted event is then a REQUIRED one, so that
+    # dropping, duplicating or re-attributing it is certainly a violation (strays after CRED_DISP are left open)
+    cands = [hh for hh in hs if any('"outs":[{' in l for l in hh) and not any('"CRED_DISP"' in l for l in hh)
+             and len(hh) < 40]
     if not cands:
         raise Infra("binding self-test: no recorded history emitted anything")
     rnd.shuffle(cands)
